@@ -496,7 +496,9 @@ type cacheBatch struct {
 
 // Put adds "add key-value pair" operation into batch.
 func (b *cacheBatch) Put(key, value []byte) error {
-	b.writes = append(b.writes, kv{common.CopyBytes(key), common.CopyBytes(value)})
+	// a nil value marks a deletion in b.writes: a Put always stores a (possibly empty) value, also when
+	// a replaying batch (goleveldb) hands over nil for an empty value
+	b.writes = append(b.writes, kv{common.CopyBytes(key), append([]byte{}, value...)})
 	b.size += len(value) + len(key)
 	return nil
 }
